@@ -619,3 +619,10 @@ M("C03", "revert-fix-recursion-while-handling", "comm/server.py",
 ''')
 M("C17", "revert-fix-canonical-hash", "admin/signer_authorization.py",
   "        self._hash = bytes.fromhex(hash).hex()\n", "        self._hash = hash.lower()\n")
+M("C18", "cli-anypin-default-true", "adm_ledger.py",
+  '''        help="Allow any pin (only valid for 'changepin' operation).",
+        default=False,''',
+  '''        help="Allow any pin (only valid for 'changepin' operation).",
+        default=True,''')
+M("C18", "cli-sgx-dispatch-changepin-to-unlock", "adm_sgx.py",
+  '''        "changepin": do_changepin,''', '''        "changepin": do_unlock,''')
